@@ -1027,6 +1027,12 @@ class Controller:
                 if comp not in self.comp_staged_in:
                     return False
 
+                # VV: A Subject which is being finished (e.g. it was put down without ever having been launched) is
+                #     neither running nor done yet; wait for its final state so that the rules for failed and
+                #     shut-down producers get to see it
+                if comp.finishCalled:
+                    return False
+
             return True
 
     def _schedule(self, migrated_components):
